@@ -110,13 +110,23 @@ def c18(pid, tier, seed, selftest=False):
     grid = [(2, 1, 1), (4, 2, 1), (16, 1, 2), (64, 3, 3), (1024, 8, 1), (16384, 8, 1), (32768, 8, 1), (256, 16, 2), (8, 4, 8)]
     if thorough:
         grid += [(2 ** k, r, p) for k in range(1, 13) for r in (1, 5, 16) for p in (1, 4, 8) if 128 * r * 2 ** k <= 16 << 20]
+    # the far corner of the stated bounds (N = 2^15 and 2^14 with r p up to 128: lanes of 16..64 MiB, several of them, 256 MiB
+    # and more in total), where an implementation may switch strategy (lanes in parallel under a memory budget, in sequence
+    # above it); one call shape each, they take seconds
+    corner = [(32768, 16, 5), (32768, 9, 8), (16384, 16, 8), (32768, 16, 8), (32768, 11, 6), (32768, 16, 4), (32768, 8, 8), (16384, 13, 7)]
+    if thorough:
+        corner += [(32768, r, p) for r in (8, 10, 12, 14, 15, 16) for p in (2, 3, 5, 7, 8) if (32768, r, p) not in corner]
+    ngrid = len(grid)
+    grid += corner
     for i, (n, r, p) in enumerate(grid):
         for j, (pl, sl, dk) in enumerate([(0, 0, 32), (8, 32, 32), (65, 1, 200), (1, 64, 1), (64, 16, 32), (63, 65, 33), (128, 63, 64)]):
             if j >= 4 and i % 3 and not thorough:
                 continue
+            if i >= ngrid and j != 1 + i % 3:
+                continue
             pw = bytes(rnd.getrandbits(8) for _ in range(pl))
             salt = bytes(rnd.getrandbits(8) for _ in range(sl))
-            want = hashlib.scrypt(pw, salt=salt, n=n, r=r, p=p, dklen=dk, maxmem=128 * 1024 * 1024).hex()
+            want = hashlib.scrypt(pw, salt=salt, n=n, r=r, p=p, dklen=dk, maxmem=(128 if i < ngrid else 2000) * 1024 * 1024).hex()
             cases.append(({"op": "prim", "id": "o%d.%d" % (i, j), "fn": "scrypt", "password": pw.hex(), "salt": salt.hex(), "n": n, "r": r, "p": p,
                            "len": dk, "ref": "OpenSSL scrypt via hashlib"}, want))
     # the leaf: Salsa20/8 core, RFC 7914 section 8
@@ -236,7 +246,7 @@ def erase_cfg(steps, slots, variant, emit):
 
 def c20(pid, tier, seed, selftest=False):
     rep = Report(pid, tier, seed)
-    rep.rule = ("every program of n construct / clone / drop / drop-two-handles-concurrently steps over 3 slots and the constructors {PrivateKey::generate, "
+    rep.rule = ("every program of n construct / clone / drop / drop-while-the-thread-unwinds-from-a-panic / drop-two-handles-concurrently steps over 3 slots and the constructors {PrivateKey::generate, "
                 "PrivateKey::try_from, PayloadKey::new (boxed)}, enumerated by TLC from Erase.tla (ErasedAtRelease, LiveUntouched), is "
                 "executed on the real containers with each secret's heap block registered in the harness allocator, which inspects the "
                 "bytes at the moment the block is released; objects still live at the end are dropped in slot order; "
@@ -260,7 +270,7 @@ def c20(pid, tier, seed, selftest=False):
         raise ToolError("Erase model (SharedLastWipes) violates " + r2.violated)
     if thorough or selftest:
         for v, inv in [("NoDropErase", "ErasedAtRelease"), ("EraseCopy", "ErasedAtRelease"), ("SharedClone", "LiveUntouched"),
-                       ("SharedRacy", "ErasedAtRelease")]:
+                       ("SharedRacy", "ErasedAtRelease"), ("SkipWipeWhenPanicking", "ErasedAtRelease")]:
             r = run_tlc(pid, "neg-" + v, "Erase", erase_cfg(3, 3, v, False), workers=1, timeout=120)
             rep.add_model("neg-" + v, r, "deviation must break " + inv)
             if r.violated != inv:
